@@ -4,11 +4,17 @@
    unsafe mode and the safe text of raw payloads; (2) D1: every evaluator call other than
    doPrint/doPrintf hands back the mode and the override it found, on every outcome; (3) the
    operands Safe(x) / Unsafe(x) are bracketed by SetMode(safe/unsafe) ... SetMode(previous) with no
-   switch to unsafe mode (resp. only unsafe writes) in between.  That each leaf which is not
-   declared safe is written in unsafe mode by the (kind, verb) arm concerned is decided by the
-   correspondence and the black-box predicate (_partial). *)
+   switch to unsafe mode (resp. only unsafe writes) in between; (4) D4, per leaf: an operand of a
+   basic kind (bool, integer, float, string; named or unnamed type) that is not declared safe,
+   printed with a verb valid for its kind under any flags, width and precision, at top level or
+   as an element of a container, is rendered ENTIRELY between SetMode(unsafe) and
+   SetMode(previous) - sign, padding, quotes and prefixes included; (5) an operand whose type is a
+   SafeValue or registered, whatever it contains, is rendered between SetMode(safe) and
+   SetMode(previous) with no switch to unsafe mode in between.  That the punctuation and type
+   names of containers and the bad-verb reports are written outside unsafe brackets is decided by
+   the correspondence and the black-box predicate (_partial). *)
 From Redact Require Import Bytes Tokens Utf8 Markers Buffer Ops BufInv BufContent LBuf Printer Api.
-From Redact Require Import BufContentP ApiP Hoare Discipline Keeps.
+From Redact Require Import BufContentP ApiP Hoare Discipline Keeps LeafP.
 Import List ListNotations.
 
 Theorem C05_text_outside_envelopes_partial : forall fuel env f a o,
@@ -40,6 +46,45 @@ Theorem C05_unsafe_operand : forall fuel env x verb s,
   exists d, Forall op_u d /\ rlog (pl s') = OMode (lmode (pl s)) :: d ++ OMode MUnsafe :: rlog (pl s).
 Proof. exact unsafe_operand. Qed.
 Print Assumptions C05_unsafe_operand.
+
+Theorem C05_unsafe_leaf_operand : forall fuel env v verb s,
+  leaf_verb_ok v verb = true -> is_safe_value v = false -> is_registered v = false ->
+  povr s = NoOvr ->
+  let s' := snd (ev (S (S fuel)) env (CPrintArg v verb) s) in
+  povr s' = NoOvr /\
+  exists d, Forall is_write d /\ rlog (pl s') = OMode (lmode (pl s)) :: d ++ OMode MUnsafe :: rlog (pl s).
+Proof. exact unsafe_leaf_operand. Qed.
+Print Assumptions C05_unsafe_leaf_operand.
+
+Theorem C05_unsafe_leaf_element : forall fuel env v verb depth ci s,
+  leaf_verb_ok v verb = true -> is_safe_value v = false -> is_registered v = false ->
+  povr s = NoOvr ->
+  let s' := snd (ev (S (S fuel)) env (CPrintValue v verb (S depth) ci) s) in
+  povr s' = NoOvr /\
+  exists d, Forall is_write d /\ rlog (pl s') = OMode (lmode (pl s)) :: d ++ OMode MUnsafe :: rlog (pl s).
+Proof. exact unsafe_leaf_element. Qed.
+Print Assumptions C05_unsafe_leaf_element.
+
+Theorem C05_declared_safe_operand : forall fuel env v verb s,
+  (is_registered v || is_safe_value v) = true ->
+  (forall x m, v <> VSafe x m) -> (forall x, v <> VUnsafe x) ->
+  povr s = NoOvr ->
+  let s' := snd (printArg (ev fuel env) env v verb s) in
+  povr s' = NoOvr /\
+  exists d, Forall op_s d /\ rlog (pl s') = OMode (lmode (pl s)) :: d ++ OMode MSafe :: rlog (pl s).
+Proof. exact declared_safe_operand. Qed.
+Print Assumptions C05_declared_safe_operand.
+
+(* Non-vacuity of D4: "%+08.3d" applied to an int of a named type, and "%q" to a string with a
+   marker and a line feed inside []interface{}: the whole rendering is inside envelopes. *)
+Example C05_leaf_nonvacuous :
+  let ti := mkT [109;97;105;110;46;73]%N false false in
+  leaf_verb_ok (VInt ti 42%Z) 100%Z = true /\
+  match Api.sprintf 20 (mkEnv [] None) [120;61;37;43;48;56;46;51;100;33]%N [VInt ti 42%Z] with
+  | ROk o => del_env_b (Api.o_bytes o) = [120;61;33]%N /\ n_env (lex (Api.o_bytes o)) = 1%nat
+  | _ => False
+  end.
+Proof. vm_compute. repeat split. Qed.
 
 Example C05_nonvacuous :
   let ops := [OMode MSafe; OWrite [120; 61]; OMode MUnsafe; OWrite [115; 10; 116]; OMode MSafe; OWrite [33]]%N in
